@@ -24,6 +24,8 @@ def norm_grid(g, N):
     g = g or {"cls": "Uniform"}
     if g["cls"] in ("Uniform", "Free"):
         return [k / N for k in range(N + 1)]
+    if g["cls"] == "DenseEdges":
+        return dense_edges_grid(g.get("multiplier", 10), g.get("edge_frac", 0.1), N)
     if g["cls"] == "Geometric":
         gf = float(g.get("growth", 2))
         if not g.get("local", False) and N > 1:
@@ -35,6 +37,44 @@ def norm_grid(g, N):
             out.append(out[-1] + x / tot)
         return out
     raise ValueError(g)
+
+
+_DE_CACHE = {}
+
+
+def dense_edges_grid(multiplier, edge_frac, N):
+    """grid points t_i with E(t_i) = i/N, E the normalised integral of the density; computed here by fine
+    quadrature of CasADi's interpolant and inversion in numpy, independently of rockit's own integrator + bisection
+    (agreement to ~1e-6)"""
+    key = (multiplier, edge_frac, N)
+    if key not in _DE_CACHE:
+        interp = ca.interpolant("interp", "bspline", [[0.0, edge_frac, 1 - edge_frac, 1.0]], [multiplier, 1.0, 1.0, multiplier], {"algorithm": "smooth_linear"})
+        tt = np.linspace(0.0, 1.0, 20001)
+        dens = np.array(interp(tt.reshape((1, -1)))).flatten()
+        cum = np.concatenate([[0.0], np.cumsum((dens[1:] + dens[:-1]) / 2 * np.diff(tt))])
+        cum /= cum[-1]
+        _DE_CACHE[key] = [float(np.interp(i / N, cum, tt)) for i in range(N + 1)]
+        _DE_CACHE[key][0], _DE_CACHE[key][-1] = 0.0, 1.0
+    return _DE_CACHE[key]
+
+
+def grid_absolute(w, act, st, rec, fresh, recF):
+    """the control grid the solver starts from is t0 + n_k T with n_k from the independent grid model.  This is the
+    one place where an error shared by the freshly written OCP (e.g. a process-global cache of computed grids) shows."""
+    spec = act.spec
+    m = spec.method
+    if m is None or "_opti" not in rec or spec.stages:
+        return
+    tc, _ = times(spec)
+    try:
+        got = _eval(rec["_opti"], rec, act.ocp.sample(act.ocp.t, grid="control")[1]).flatten()
+    except Exception:
+        return
+    tol = 1e-4 if (m.get("grid") or {}).get("cls") == "DenseEdges" else 1e-9
+    if got.shape != (len(tc),) or not np.allclose(got, np.array(tc), rtol=tol, atol=tol):
+        raise Violation("grid-times", "control grid at the starting point %s, grid model %s (grid %s, N=%d)" % (
+            np.round(got, 6).tolist(), np.round(tc, 6).tolist(), m.get("grid"), m["N"]))
+    w.probe("grid_times_checked")
 
 
 def horizon_guess(spec):
@@ -110,6 +150,7 @@ def c10_absolute(w, act, st, rec, fresh, recF):
     m = spec.method
     if m is None or "_opti" not in rec:
         return
+    dense = (m.get("grid") or {}).get("cls") == "DenseEdges"  # node times from a numerical inversion: compare to 1e-4
     opti = rec["_opti"]
     ocp = act.ocp
     N, M = m["N"], m.get("M", 1)
@@ -122,7 +163,8 @@ def c10_absolute(w, act, st, rec, fresh, recF):
     def cmp(name, what, got, exp):
         nonlocal checked
         got = np.array(got, dtype=float).reshape(exp.shape) if np.size(got) == exp.size else np.array(got, dtype=float)
-        if got.shape != exp.shape or not np.allclose(got, exp, rtol=1e-9, atol=1e-11, equal_nan=True):
+        tol = (1e-3, 1e-3) if (dense and g is not None and g[0] == "expr") else (1e-9, 1e-11)
+        if got.shape != exp.shape or not np.allclose(got, exp, rtol=tol[0], atol=tol[1], equal_nan=True):
             raise Violation("start-differs", "%s %s: solver starts from %s, guess implies %s (guess %s, method %s N=%d M=%d)" % (
                 name, what, np.round(got, 6).tolist(), np.round(exp, 6).tolist(), ini.get(name), cls, N, M))
         checked += exp.size
@@ -268,11 +310,29 @@ def c09_constants(w, act, st, rec, fresh, recF):
         s = spec.sym(p)
         if s.get("grid", "") == "" and p in spec.values:
             consts[p] = raw_value(spec.values[p])
-    if not consts:
+    # node-only per-interval parameters whose values are samples of a known function of time: write q(t) in their place
+    exprs = {}
+    from .gen import node_times
+
+    tc = node_times(spec)
+    for p in spec.names("parameter"):
+        s = spec.sym(p)
+        v = spec.values.get(p)
+        if not s.get("node_only") or not isinstance(v, dict) or "fn" not in v or tc is None:
+            continue
+        ncol = spec.method["N"] + (1 if s.get("include_last") else 0)
+        vals = np.array(raw_value(v), dtype=float).flatten()
+        exp = np.array([round(E.evalnum(v["fn"], t=tc[k]), 10) for k in range(ncol)])
+        if vals.shape == exp.shape and np.allclose(vals, exp, rtol=0, atol=1e-12):
+            exprs[p] = v["fn"]
+            w.probe("c09_node_only_parameter_as_function_of_time")
+        else:
+            w.probe("c09_node_only_parameter_values_outdated")  # horizon / grid changed since the values were sampled
+    if not consts and not exprs:
         return
     # a guess expression may not mention parameters in this workload, so guesses carry over unchanged
     try:
-        hard = build(program(spec, consts=consts), "const")
+        hard = build(program(spec, consts=consts, exprs=exprs), "const")
         recC = w.handoff(hard)
     except Exception as e:
         raise Violation("constants-version-raises", "the OCP with the values written in as constants does not transcribe: %s %s" % (type(e).__name__, str(e)[:200]))
